@@ -107,8 +107,27 @@ class BuildError(Exception):
 def run_py(scratch, args, timeout=600, extra_env=None, cwd=None, input=None):
     """Run a harness python process against the scratch copy."""
     env = scratch.env(**(extra_env or {}))
-    return subprocess.run([PY] + list(args), env=env, cwd=cwd or scratch.dir, timeout=timeout,
-                          stdout=subprocess.PIPE, stderr=subprocess.PIPE, input=input, text=True)
+    # own session: on a timeout (e.g. a dead-locked multi-process run) the whole process group is killed
+    proc = subprocess.Popen([PY] + list(args), env=env, cwd=cwd or scratch.dir, stdout=subprocess.PIPE,
+                            stderr=subprocess.PIPE, stdin=subprocess.PIPE if input is not None else None, text=True,
+                            start_new_session=True)
+    try:
+        out, err = proc.communicate(input=input, timeout=timeout)
+    except subprocess.TimeoutExpired:
+        import signal
+        try:
+            os.killpg(proc.pid, signal.SIGKILL)
+        except Exception:
+            pass
+        out, err = proc.communicate()
+        return subprocess.CompletedProcess(proc.args, -9, out, (err or "") + "\nTIMEOUT after %ss" % timeout)
+    finally:
+        try:
+            import signal
+            os.killpg(proc.pid, signal.SIGKILL)      # no stray worker processes survive a harness run
+        except Exception:
+            pass
+    return subprocess.CompletedProcess(proc.args, proc.returncode, out, err)
 
 
 def assert_scratch_import():
